@@ -22,6 +22,14 @@ from .graph import Graph, WeightedGraph
 NEGINF = -np.inf
 
 
+def _argmax_within(values, members):
+    """ Index of the (first) largest of `values` among the `members` (a
+    boolean mask with at least one True), whatever the data type and values
+    """
+    inds = np.nonzero(members)[0]
+    return inds[np.argmax(values[inds])]
+
+
 def field_from_coo_matrix_and_data(x, data):
     """ Instantiates a weighted graph from a (sparse) coo_matrix
 
@@ -327,7 +335,6 @@ class Field(WeightedGraph):
         label : array of shape (self.V)
               labelling of the vertices according to their bassin
         """
-        from numpy import ma
 
         if (np.size(self.field) == 0):
             raise ValueError('No field has been defined so far')
@@ -351,8 +358,7 @@ class Field(WeightedGraph):
 
         # write all the depth values
         label[self.field[:, refdim] >= th] = llabel
-        idx = np.array([ma.array(
-                    self.field[:, refdim], mask=(label != c)).argmax()
+        idx = np.array([_argmax_within(self.field[:, refdim], label == c)
                         for c in range(n_bassins)])
         return idx, label
 
@@ -382,7 +388,6 @@ class Field(WeightedGraph):
         label: array of shape (self.V)
                a labelling of thevertices according to their bassin
         """
-        from numpy import ma
         if (np.size(self.field) == 0):
             raise ValueError('No field has been defined so far')
         if self.field.shape[1] - 1 < refdim:
@@ -429,9 +434,8 @@ class Field(WeightedGraph):
 
         # write all the depth values
         label[self.field[:, refdim] >= th] = llabel
-        idx = np.array([ma.array(
-                    self.field[:, refdim], mask=(label != c)).argmax()
-                         for c in range(q)])
+        idx = np.array([_argmax_within(self.field[:, refdim], label == c)
+                        for c in range(q)])
         return idx, parent, label
 
     def constrained_voronoi(self, seed):
